@@ -74,7 +74,7 @@ class C05(Property):
             "dispatch correspondence: on frameworks that separate the semantics (no stable extension, stage != semi-stable, preferred != complete, above the hybrid threshold, random ones) every problem x "
             "every --encoding value (and `SE-PR` literal vs recased) is run with --external-sat-solver pointing to a recording script: the DIMACS text of every SAT call must equal byte for byte the text "
             "rendered by the composed Lean model (readProblem, dispatchSolver, dispatchEncoder, entryProg, Buffered.dimacs) replayed on the recorded replies, the printed answer must equal the model's, "
-            "and is judged by the oracle as well; the problem-string parser is compared with Cli.readProblem on the 21 problems and mutations of them (case, extra / missing / doubled hyphens, blanks, swapped parts, non-ASCII look-alikes) and on random concatenations of name pieces; non-trivial = invocation on a framework with an attack")
+            "and is judged by the oracle as well; the problem-string parser is compared with Cli.readProblem on the 21 problems and mutations of them (case, extra / missing / doubled hyphens, blanks, swapped parts, non-ASCII look-alikes) and on random concatenations of name pieces; `crustabri check` on well- and ill-formed files of both formats (the C13 generator) must exit 0 exactly when the Lean reader model accepts the file; non-trivial = invocation on a framework with an attack")
     assumptions = ["clap 2.34 and process exit plumbing are trusted; help requests exit 0 by design and are not errors",
                    "log lines (prefix `![`) are not answers; they appear on stdout only when logging is not off or on usage errors"]
 
@@ -300,6 +300,9 @@ class C05(Property):
         f3, c3 = self.problem_strings(ctx, rng)
         findings += f3
         cov.update(c3)
+        f4, c4 = self.check_command(ctx, rng)
+        findings += f4
+        cov.update(c4)
         self._cov = cov
         return findings, cov
 
@@ -466,6 +469,49 @@ class C05(Property):
                 findings.append(Finding("model", None, "read_problem_string and its Lean model (Cli.readProblem) differ on %r: impl %s model %s" % (x, ir, mr),
                                         "cli · problem parser differs from the model", {"problem": x, "theorem": "correspondence read family fmt=prob (C05.problem_parse_iff is about Cli.readProblem)"}))
         return findings, {"problem_strings_compared": len(strs), "problem_strings_accepted": nacc}
+
+    # ---- `crustabri check`: exit status 0 exactly when the reader (and its Lean model) accepts the file ----
+    def check_command(self, ctx, rng):
+        runner, tier = ctx["runner"], ctx["tier"]
+        crust = os.path.join(common.REPO_TARGET, "release", "crustabri")
+        c13 = props_io.C13()
+        cases = c13.cases("quick", random.Random(rng.randrange(1 << 30)))
+        rng.shuffle(cases)
+        cases = cases[:120 if tier == "quick" else 1500]
+        lines, jobs = [], []
+        for i, cl in enumerate(cases):
+            kv = dict(t.split("=", 1) for t in cl.split(" ")[2:] if "=" in t)
+            path = os.path.join(runner.dir, "chk_%d.%s" % (i, "af" if kv["fmt"] == "iccma" else "apx"))
+            open(path, "wb").write(bytes.fromhex(kv.get("hex", "")))
+            lines.append("read k%d fmt=%s hex=%s" % (i, kv["fmt"], kv.get("hex", "")))
+            jobs.append([crust, "check", "-f", path, "-r", "iccma23" if kv["fmt"] == "iccma" else "apx", "--logging-level", "off"])
+
+        def run(cmd):
+            try:
+                pr = subprocess.run(cmd, stdout=subprocess.PIPE, stderr=subprocess.PIPE, timeout=60)
+                return pr.returncode, pr.stdout.decode(errors="replace")
+            except subprocess.TimeoutExpired:
+                return None, ""
+        with ThreadPoolExecutor(max_workers=16) as ex:
+            results = list(ex.map(run, jobs))
+        text, impl = runner.harness(lines)
+        _, model = runner.driver(text)
+        findings = []
+        nok = 0
+        for i, (rc, out) in enumerate(results):
+            mr = [l for l in model.get("k%d" % i, []) if l.startswith("R ")]
+            accepted = bool(mr) and mr[0].startswith("R ok")
+            nok += accepted
+            shown = " ".join(jobs[i])
+            if accepted and rc != 0:
+                findings.append(Finding("input", None, "`check` exits with %s on a file the reader model accepts: %s" % (rc, shown[-100:]), "cli/check · readable file reported as erroneous",
+                                        {"cmd": shown, "file_hex": lines[i].split("hex=")[1]}))
+            if not accepted and rc == 0:
+                findings.append(Finding("input", None, "`check` exits with 0 on an ill-formed file: %s" % shown[-100:], "cli/check · ill-formed file reported as fine",
+                                        {"cmd": shown, "file_hex": lines[i].split("hex=")[1]}))
+            if any(is_answer_line(l) for l in out.split("\n")):
+                findings.append(Finding("input", None, "`check` printed an answer line: %r" % out[:80], "cli/check · answer printed", {"cmd": shown}))
+        return findings, {"check_command_runs": len(jobs), "check_command_accepted": nok}
 
     def stats(self, cases, impl, model):
         return getattr(self, "_cov", {})
